@@ -481,7 +481,9 @@ def check(fx, rep, tier):
     # gas exhaustion is recorded whenever the comparison holds: the test that guards the recording is the bare comparison of the
     # thread's gas with the limit (not conjoined with "the thread still has something to execute")
     advb = vm.advance
-    for site in [x for x in site_info if x["fn"] == advb["def"] and x["built"] and "GasLimitExceeded" in x["kinds"]]:
+    gas_sites = [x for x in site_info if x["fn"] == advb["def"] and x["built"] and "GasLimitExceeded" in x["kinds"]]
+    rep.oblige(bool(gas_sites), "R17.6", "gas-error-raised", F.loc(advb["span"]), "the function that retires a thread for exceeding the gas limit never records GasLimitExceeded: running out of gas silently truncates the path, and the analysis succeeds with whatever was seen up to there", sample={"rule": "R17.6", "gas_error_sites": len(gas_sites)})
+    for site in gas_sites:
         n6, ps6 = site["node"], site["ps"]
         mut6 = T.mutated_locals(advb["hir"]["value"])
         conds = [T.term(a["cond"], T.env_at(ps6, a, mut6), mut6) for a, key in ps6 if a.get("k") == "If" and key == "then"]
